@@ -289,7 +289,8 @@ def write_replay(prop, n, payload):
 
 
 def write_evidence(prop, tier, coverage, wall, violations, assumptions, level="model_checking"):
-    d = os.path.join(VERIF, "evidence")
+    # (bin/mutants.py runs the checks against scratch trees: their evidence must not replace the evidence about /repo)
+    d = os.environ.get("VERIF_EVIDENCE_DIR") or os.path.join(VERIF, "evidence")
     os.makedirs(d, exist_ok=True)
     ev = {"property_id": prop, "tier": tier, "seed": seed(), "level": level, "coverage": coverage,
           "assumptions": assumptions, "wall_s": round(wall, 1), "violations": violations}
